@@ -35,18 +35,11 @@ class PathStates:
         m = Matcher(fn)
         # label every edge
         self.edge_labels = {}
+        self._env0 = dict(env or {})
+        self._m = m
         for b in fn.blocks:
             for s in b.succs:
-                labs = set()
-                for f in facts.edge_facts(b.id, s):
-                    inst = m.strip(f[1])
-                    iid = inst[1] if inst[0] == "v" else -1
-                    for name, pat in tracked.items():
-                        if m.match_fact(pat, f, dict(env or {})) is not None:
-                            labs.add((name, True, iid))
-                        if m.match_fact(negate(pat), f, dict(env or {})) is not None:
-                            labs.add((name, False, iid))
-                self.edge_labels[(b.id, s)] = frozenset(labs)
+                self.edge_labels[(b.id, s)] = self._labels(facts.edge_facts(b.id, s))
         self.flag_phis = {}
         if correlate:
             from .facts import is_const, const_val
@@ -61,6 +54,9 @@ class PathStates:
                         sv = m.strip(v)
                         if sv[0] == "v" and sv[1] in cand:
                             continue
+                        dv = fn.defn(sv)
+                        if dv is not None and not dv.is_param and (dv.op == "icmp" or dv.ty == "i1"):
+                            continue        # a boolean: the phi then holds "the truth of that test" (carried as ("$phi", False, id))
                         del cand[pid]
                         changed = True
                         break
@@ -68,13 +64,36 @@ class PathStates:
             self._m = m
         self._run()
 
+    def _labels(self, fs):
+        m = self._m
+        labs = set()
+        for f in fs:
+            if f[0] == "in":
+                continue
+            inst = m.strip(f[1])
+            iid = inst[1] if inst[0] == "v" else -1
+            for name, pat in self.tracked.items():
+                if m.match_fact(pat, f, dict(self._env0)) is not None:
+                    labs.add((name, True, iid))
+                if m.match_fact(negate(pat), f, dict(self._env0)) is not None:
+                    labs.add((name, False, iid))
+        return frozenset(labs)
+
     def _flag_step(self, st, b, s):
         """state after crossing b->s under the flag-phi assignment, or None if the edge contradicts it"""
         from .facts import is_const, const_val
         m = self._m
-        env = {int(n[1:]): v for n, pol, v in st if n.startswith("$")}
+        env = {int(n[1:]): v for n, pol, v in st if n.startswith("$") and pol}
+        benv = {int(n[1:]): v for n, pol, v in st if n.startswith("$") and not pol}
+        extra = set()
         for f in self.F.edge_facts(b, s):
+            if f[0] == "in":
+                continue
             a = m.strip(f[1])
+            if a[0] == "v" and a[1] in benv and is_const(f[2]) and const_val(f[2]) in (0, 1) and f[0] in ("eq", "ne"):
+                # the flag holds the truth of an earlier test: branching on the flag establishes that test's facts on this path
+                truth = (f[0] == "ne") == (const_val(f[2]) == 0)
+                extra |= self._labels(self.F.cond_facts(("v", benv[a[1]]), truth))
             if a[0] == "v" and a[1] in env and is_const(f[2]) and const_val(f[2]) is not None:
                 x, c = env[a[1]], const_val(f[2])
                 ok = {"eq": x == c, "ne": x != c, "ugt": x > c, "uge": x >= c, "ult": x < c, "ule": x <= c,
@@ -90,17 +109,24 @@ class PathStates:
             for v, pb in i.incoming:
                 if pb == b:
                     if is_const(v) and const_val(v) is not None:
-                        new[i.id] = const_val(v)
+                        new[i.id] = (True, const_val(v))
                     else:
                         sv = m.strip(v)
-                        new[i.id] = env.get(sv[1]) if sv[0] == "v" else None
-        if not new:
+                        if sv[0] == "v" and sv[1] in env:
+                            new[i.id] = (True, env[sv[1]])
+                        elif sv[0] == "v" and sv[1] in benv:
+                            new[i.id] = (False, benv[sv[1]])
+                        elif sv[0] == "v" and sv[1] not in self.flag_phis:
+                            new[i.id] = (False, sv[1])
+                        else:
+                            new[i.id] = None
+        if not new and not extra:
             return st
         keep = {x for x in st if not (x[0].startswith("$") and int(x[0][1:]) in new)}
         for pid, val in new.items():
             if val is not None:
-                keep.add(("$%d" % pid, True, val))
-        return frozenset(keep)
+                keep.add(("$%d" % pid, val[0], val[1]))
+        return frozenset(keep | extra)
 
     def _run(self):
         fn = self.fn
